@@ -181,13 +181,14 @@ Commutator(A, B, D) == MatAdd(MatMul(A, B, D), MatScale(RM1, MatMul(B, A, D), D)
 \* each identity is a named conjunct so that a failing one is reported by name
 IdUnitaryPol   == \A g \in PolGateIds : UnitaryUpToScale(Gate(g))
 IdUnitaryOther == \A g \in {"FId", "PS1", "PS2", "PS3", "PS5", "PS7", "CX", "CZ", "SWAP", "CSWAP"} : UnitaryUpToScale(Gate(g))
-IdUnitaryBS    == \A k \in 0..8 : UnitaryUpToScale(GBS(k))
+IdUnitaryBS    == \A k \in 0..8 : LET g == GBS(k) IN UnitaryUpToScale(g)
 \* rotations compose additively (angles k*pi/2: period 4*pi, i.e. k mod 8)
 IdAddRX == \A a, b \in 0..8 : SameOp(Compose(GRX(a), GRX(b)), GRX(a+b))
 IdAddRY == \A a, b \in 0..8 : SameOp(Compose(GRY(a), GRY(b)), GRY(a+b))
 IdAddRZ == \A a, b \in 0..8 : SameOp(Compose(GRZ(a), GRZ(b)), GRZ(a+b))
 IdAddPS == \A a, b \in 0..8 : SameOp(Compose(GPS(a), GPS(b)), GPS(a+b))
-IdAddBS == \A a, b \in 0..8 : SameOp(Compose(GBS(a), GBS(b)), GBS(a+b))
+IdAddBS == LET tb == [k \in 0..16 |-> GBS(k)] IN
+           \A a, b \in 0..8 : SameOp(Compose(tb[a], tb[b]), tb[a+b])
 \* Clifford / Pauli algebra
 IdHZH  == SameOp(Compose(GH, Compose(GZ, GH)), GX)
 IdSS   == SameOp(Compose(GS, GS), GZ)
@@ -210,8 +211,9 @@ IdSWAP == LET XC == Op(4, MatMul(GSWAP.m, MatMul(GCX.m, GSWAP.m, 4), 4), 0)     
 IdCXasym == GCX.m # MatMul(GSWAP.m, MatMul(GCX.m, GSWAP.m, 4), 4)               \* operand order matters
 \* beam splitter: photon-number sectors never mix; BS(pi/2) exchanges the modes up to phase;
 \* Hong-Ou-Mandel; two-photon block is the symmetric square of the one-photon block
-IdBSsector == \A r, c \in 1..9 : (((r-1) \div 3) + ((r-1) % 3) # ((c-1) \div 3) + ((c-1) % 3))
-                                   => \A k \in 0..8 : GBS(k).m[r][c] = R0
+IdBSsector == LET tb == [k \in 0..8 |-> GBS(k).m] IN
+              \A r, c \in 1..9 : (((r-1) \div 3) + ((r-1) % 3) # ((c-1) \div 3) + ((c-1) % 3))
+                                   => \A k \in 0..8 : tb[k][r][c] = R0
 IdBSswap == GBS(2).m[2][4] # R0 /\ GBS(2).m[2][2] = R0 /\ GBS(2).m[4][4] = R0   \* |0,1> <-> i|1,0>
 IdHOM    == GBS(1).m[5][5] = R0
 IdBSsym  == \A k \in 0..8 : RMul(GBS(k).m[4][4], GBS(k).m[4][4]) = RMul(R2, GBS(k).m[7][7])
